@@ -135,7 +135,8 @@ fn class_ws(rng: &mut Rng) -> (Vec<(String, String)>, BTreeMap<String, usize>, V
     let mut classes: BTreeMap<String, usize> = BTreeMap::new();
     let mut inc = String::new();
     let mut root = String::from("include \"inc.td\"\n");
-    let names = ["Alpha", "Beta", "Gamma", "Delta", "Al", "Bet", "Alphabet"];
+    // (names that differ only in case, or by a trailing digit or underscore, are different classes)
+    let names = ["Alpha", "Beta", "Gamma", "Delta", "Al", "Bet", "Alphabet", "alpha", "ALPHA", "beta", "Al_", "Al2"];
     let mut positions = Vec::new();
     let mut inc_decls: Vec<(String, usize)> = Vec::new();
     let mut root_decls: Vec<(String, usize)> = Vec::new();
